@@ -203,7 +203,9 @@ def r8_project_graph_orientation(ctx, rep):
 
 
 def graph_classes(py) -> List[str]:
-    return [c for c in py.subclasses("FortranGraph") if "add_node" in py.classes[c].methods]
+    # every concrete graph class: its own add_node or one inherited from another graph class
+    return [c for c in py.subclasses("FortranGraph")
+            if any("add_node" in py.classes[b].methods for b in py.mro(c) if b in py.classes and b != "FortranGraph")]
 
 
 def r3_edges(ctx, rep):
@@ -271,6 +273,29 @@ def r4_optout(ctx, rep):
             rep.ob(f"graph attribute {ast.unparse(n.targets[0])} = {call_name(n.value)}", bool(inside),
                    "assigned inside graph_all's loop over registered objects" if inside else
                    "a per-entity graph is created outside the registered-object loop", py.nloc(n))
+    # a project-wide graph is given every registered entity as a root and draws ONE hop from each: the switch that makes a graph go
+    # on from the nodes it reached (per-entity graphs, up to graph_maxdepth) must be off for it - otherwise it continues from an
+    # entity that opted out with `graph: false` and draws that entity's own relations
+    def class_attr(cname: str, attr: str):
+        for c in py.mro(cname):
+            ci = py.classes.get(c)
+            if ci and attr in ci.class_attrs:
+                return ci.class_attrs[attr]
+        return None
+    project_wide = sorted({call_name(n.value) for n in ast.walk(ga) if isinstance(n, ast.Assign) and len(n.targets) == 1
+                           and ast.unparse(n.targets[0]).startswith("self.") and isinstance(n.value, ast.Call)
+                           and call_name(n.value) in py.classes and py.is_subclass(call_name(n.value), "FortranGraph")})
+    if len(project_wide) < 3:
+        raise AnalysisError(f"graph_all: project-wide graph objects not found ({project_wide})")
+    for cname in project_wide:
+        v = class_attr(cname, "_should_add_nested_nodes")
+        val = py.eval_const(v) if v is not None else None
+        ok = val is False
+        rep.ob(f"project-wide {cname} draws one hop from each registered entity", ok,
+               "_should_add_nested_nodes is False" if ok else
+               f"{cname} has _should_add_nested_nodes = {val!r} (through {py.mro(cname)[:3]}): the graph goes on from nodes that are not "
+               f"registered roots, so an entity with `graph: false` that is merely used by another one gets its own relations drawn",
+               py.nloc(py.classes[cname].node))
     # limits come from the entity's own metadata
     init = py.func("FortranGraph.__init__")
     t = ast.unparse(init)
@@ -425,6 +450,12 @@ def r9_settings_inherited(ctx, rep):
     common.keyword_copy_agreement(ctx, rep, modules=("settings",))
 
 
+def r10_inherited_generic_specifics(ctx, rep):
+    """the call graph of an extended type's generic binding leads to the extended type's own specifics (shared with C07.R12)"""
+    from . import c07
+    c07.r12_inherited_generic_specifics(ctx, rep)
+
+
 RULES = [
     RuleSpec("C13.R6", r6_project_graph_roots, "project-wide graph roots; file dependencies use the recursive closure", floor=8),
     RuleSpec("C13.R1", r1_pairing, "forward/inverse adjacency pairing at node creation", floor=20),
@@ -435,4 +466,5 @@ RULES = [
     RuleSpec("C13.R8", r8_project_graph_orientation, "project-wide graphs are oriented like the per-entity graphs", floor=4),
     RuleSpec("C13.R7", r7_alias, "a saved alias of a component list is not mutated in place", floor=1),
     RuleSpec("C13.R9", r9_settings_inherited, "per-entity graph limits are inherited from their project-wide namesakes", floor=3),
+    RuleSpec("C13.R10", r10_inherited_generic_specifics, "generic bindings of an extended type call that type's specifics (shared with C07.R12)", floor=1),
 ]
